@@ -13,6 +13,7 @@ package service
 
 //@ property C02 roots (*service).processPublish, (*service).processIncoming, (*service).processAcked, (*service).onPublish
 //@ property C12 roots (*service).publish, (*service).processIncoming, (*service).processAcked
+//@ property C09 roots (*service).processIncoming, (*service).stop, (*sessions.Session).Init, (*sessions.Session).Update
 //@ property C19 roots (*service).processIncoming, (*service).receiver, (timeoutReader).Read
 //@ property C01 roots (*service).onPublish
 //@ property C17 roots (*service).writeMessage, (*stat).increment, (*buffer).WriteTo, (*buffer).ReadPeek, (*buffer).ReadCommit, (*buffer).ReadFrom
@@ -639,3 +640,48 @@ func vspecCovered(x int64, start int64, c int64, size int64) bool {
 //@   atcall (*buffer).ReadFrom requires[C19:deadline] typeis(r, timeoutReader) && int64(ifaceval(r, timeoutReader).d) == int64(svc.keepAlive)*1000000000 + int64(svc.keepAlive)*1000000000/5
 //@   loop 1 invariant vdefRing(svc.in) && heldsame() && gfield(svc.in, "guard") == 0
 //@   modifies svc.in.pseq.gate, svc.in.pwait, svc.in.pseq.cursor, svc.in.done, elems(svc.in.buf), heap("GF.bcast"), heap("GF.clock"), heap("GF.lockedAt"), heap("GF.readAt"), heap("GF.doneAt"), heap("GF.doneSeen"), heap("GF.nlog"), heap("GF.armed")
+
+// ---------------------------------------------------------------- teardown (C09: the will; C10: clean sessions)
+//@ closure (*service).stop$1
+//@   trusted
+//@ extern sync/atomic.CompareAndSwapInt64
+//@   pure
+//@   flag args addr, o, n
+//@   ensures result ==> old(*addr) == o && *addr == n
+//@   ensures !result ==> old(*addr) != o && *addr == old(*addr)
+//@   modifies *addr
+//@ extern (*sync.WaitGroup).Wait
+//@   pure
+//@   flag yield
+//@ iface io.Closer.Close
+//@   trusted
+//@   pure
+//@ extern github.com/mdzio/go-mqtt/topics.Unregister
+//@   modifies topics.providers
+//@ extern (*github.com/mdzio/go-mqtt/sessions.Session).ID
+//@   pure
+//@ extern (*github.com/mdzio/go-mqtt/sessions.Session).Topics
+//@   flag args s
+//@   ensures result2 == nil ==> len(result0) == len(result1)
+//@   modifies heap("GF.clock"), heap("GF.mlockedAt")
+//@ extern (*github.com/mdzio/go-mqtt/sessions.Manager).Del
+//@   flag args m, id
+//@   ensures[ghostdef-del] gfield(m, "ndel") == old(gfield(m, "ndel"))+1
+//@   modifies gfield(m, "ndel"), allfields(sessions.MemProvider), allmaps(map[string]*sessions.Session)
+
+// What teardown needs of the will invariant (sessions.vdefWill implies it): a set will flag comes with a will message.
+//@ define vdefWillShape(s)
+//@   is s.Cmsg != nil && (message.vspecCFWill(s.Cmsg.connectFlags) ==> s.Will != nil && len(s.Will.mtypeflags) == 1)
+
+// stop: the first call tears the connection down; on the server side the will of the stored CONNECT is handed on
+// exactly once iff its will flag is still set (a DISCONNECT clears it), and never by a later call.
+//@ func (*service).stop
+//@   flag noframe
+//@   requires svc.sess != nil && svc.in != nil && vdefRingB(svc.in) && !held(ifaceval(svc.in.pcond.L, *sync.Mutex)) && !held(ifaceval(svc.in.ccond.L, *sync.Mutex)) && vdefProc(svc) && vdefWillShape(svc.sess) && !held(addr(svc.sess.mu))
+//@   rely modifies svc.out.pseq.cursor, svc.out.pseq.gate, svc.out.cseq.cursor, svc.out.done, svc.out.pwait, elems(svc.out.buf), svc.in.pseq.cursor, svc.in.pseq.gate, svc.in.cseq.cursor, svc.in.done, svc.in.pwait, elems(svc.in.buf)
+//@   rely ensures vdefRing(svc.out) && vdefRing(svc.in) && arr(svc.outtmp) != arr(svc.out.buf)
+//@   loop 1 invariant vdefProc(svc) && heldsame() && vdefWillShape(svc.sess) && svc.sess.Cmsg.connectFlags == old(svc.sess.Cmsg.connectFlags) && svc.sess.Will == old(svc.sess.Will) && gfield(svc, "ndlv") == old(gfield(svc, "ndlv")) && !svc.client && svc.sess != nil
+//@   ensures[C09:will-once] old(svc.closed) == 0 && !old(svc.client) && message.vspecCFWill(old(svc.sess.Cmsg.connectFlags)) ==> gfield(svc, "ndlv") == old(gfield(svc, "ndlv"))+1 && gfield(svc, "lastdlv") == old(svc.sess.Will)
+//@   ensures[C09:no-will] old(svc.closed) != 0 || old(svc.client) || !message.vspecCFWill(old(svc.sess.Cmsg.connectFlags)) ==> gfield(svc, "ndlv") == old(gfield(svc, "ndlv"))
+//@   ensures[C10:clean-deleted] old(svc.closed) == 0 && message.vspecCFClean(old(svc.sess.Cmsg.connectFlags)) && old(svc.sessMgr) != nil ==> gfield(old(svc.sessMgr), "ndel") == old(gfield(svc.sessMgr, "ndel"))+1
+//@   ensures[C10:kept] old(svc.closed) != 0 || !message.vspecCFClean(old(svc.sess.Cmsg.connectFlags)) ==> svc.sessMgr == nil || gfield(svc.sessMgr, "ndel") == old(gfield(svc.sessMgr, "ndel"))
